@@ -1,3 +1,7 @@
 import Audit.Tool
 import Adb.Props.C03
+import Adb.Props.ParseFlags
 #audit_module Adb.Props.C03
+#audit_module Adb.Props.ParseInv
+#audit_module Adb.Props.ParseMod
+#audit_module Adb.Props.ParseFlags
